@@ -11,8 +11,8 @@ from harness import judge, simnet, vloop, watchdog
 UNIX = ["-rw-r--r--", "1", "owner", "group", "1234", "Jan 01 12:30", "name.txt"]
 UNIXD = ["drwxr-xr-x", "2", "o", "g", "0", "Dec 31  2001", "a dir"]
 UNIXL = ["lrwxrwxrwx", "1", "o", "g", "4", "Feb 29 00:00", "lnk -> target/"]
-WIN = ["01/02/2021", "03:04PM", "<DIR>", "folder"]
-WINF = ["12/31/1999", "11:59AM", "1,234", "file name.bin"]
+WIN = ["01/02/2021", "03:04 PM", "<DIR>", "folder"]
+WINF = ["12/31/1999", "11:59 AM", "1,234", "file name.bin"]
 MLSX = ["Type=file;", "Size=12;", "Modify=20210102030405;", " name"]
 
 MUTS = ["drop", "empty", "dup", "nonascii", "digits", "long", "space", "dash", "ctrl", "swap", "truncate", "quote", "percent", "neg", "huge",
